@@ -437,6 +437,16 @@ class ProcProxyThread(threading.Thread):
         thread.  This is part of the `threading.Thread` interface and should
         not be called directly.
         """
+        try:
+            self._run()
+        finally:
+            # Whatever went wrong (e.g. a pipe end that was closed before this
+            # thread got to open it), the pipeline polls returncode to learn
+            # that this stage is over; None would make it wait forever.
+            if self.f is not None and self.returncode is None:
+                self.returncode = 1
+
+    def _run(self):
         if self.f is None:
             self._close_devnull()
             return
